@@ -18,7 +18,7 @@ func init() {
 		NotDecided:  "whether the server executed a command whose connection dropped mid-flight (the assumption behind retrying read-only commands); R03c is violated today by two delivery sites and recorded as a known finding."}
 	Registry["C28"] = RuleDef{Module: ".", Run: runC28,
 		Technique:   "path-wise justification of every retry edge, ordering-domain evaluation of the back-off decision, guard rules on the cluster work-list",
-		Explanation: "Decides (R03a as R28a) that every automatic re-send path requires the client retry flag (so DisableRetry removes all of them), a read-only/retryable command, a retryable error and the retry policy's consent (WaitOrSkipRetry true, or in the cluster batch paths a non-negative RetryDelay before the command is queued for the next round); (R03b) the retryable-error predicates answer yes only for transport errors with live context and open client, LOADING, and for clusters TRYAGAIN/CLUSTERDOWN, never for Nil or other error replies; (R28d) the decision table of retryer.WaitOrSkipRetry: negative delay => no retry, zero => retry at once, positive => retry iff no deadline or remaining time > delay.",
+		Explanation: "Decides (R03a as R28a) that every automatic re-send path requires the client retry flag (so DisableRetry removes all of them), a read-only/retryable command, a retryable error and the retry policy's consent (WaitOrSkipRetry true, or in the cluster batch paths a non-negative RetryDelay before the command is queued for the next round); (R03b) the retryable-error predicates answer yes only for transport errors with live context and open client, LOADING, and for clusters TRYAGAIN/CLUSTERDOWN, never for Nil or other error replies; (R28d) the decision table of retryer.WaitOrSkipRetry: negative delay => no retry, zero => retry at once, positive => retry iff no deadline or remaining time > delay. (R28e) a dedicated client re-validates itself before every retry attempt (a client released during the back-off sends nothing more).",
 		NotDecided:  "timing of the back-off; custom RetryDelayFn behaviour."}
 }
 
@@ -730,6 +730,7 @@ func runC03(r *Report) {
 }
 
 func runC28(r *Report) {
+	recheckBeforeRetryRule(r, "R28e")
 	resendRules(r, "R28a", true)
 	retryPredicateRules(r, "R28b")
 	backoffRule(r)
